@@ -1,17 +1,29 @@
 ---------------------------- MODULE TracePipeline ----------------------------
 (***************************************************************************)
-(* L3 binding of Pipeline.tla: the "step" events that the hooks record in  *)
-(* the real topicosvg must be a run of the model's program (the three       *)
-(* extra discard steps are stuttering steps of discard_noise; the loop is   *)
-(* remove_unpainted_shapes (dissolved_groups_and_rounded                     *)
-(* remove_unpainted_shapes)* ).  A mismatch means the model no longer        *)
-(* describes the code's step order: reported as model drift, never as a      *)
-(* violation of a property.                                                  *)
+(* L3 binding of Pipeline.tla.  The "step" hook records, for every step of  *)
+(* the real topicosvg, its name and the residues the document contains      *)
+(* afterwards (observation function harness/pipeline_obs.py).  Each         *)
+(* recorded step must be a step of the model:                               *)
+(*   - the names follow the model's program (the three extra discard steps   *)
+(*     stutter; the loop is remove_unpainted_shapes                           *)
+(*     (dissolved_groups_and_rounded remove_unpainted_shapes)* );             *)
+(*   - the observed document is one the model allows after that step:         *)
+(*       obs \subseteq (prev \ Removes(step)) \cup MayCreate(step)             *)
+(* A mismatch means the model no longer describes the code (step order, or    *)
+(* what a step cleans up / may leave behind): reported as MODEL DRIFT, never   *)
+(* as a violation of a property (C01/C07/C08 judge the final document).        *)
 (***************************************************************************)
-EXTENDS Naturals, Sequences, Json, IOUtils, TLC
+EXTENDS Pipeline, Json, IOUtils
 
 Cases == ndJsonDeserialize(IOEnv.TRACES)
 VARIABLES blk, tid, verdict
+
+ModelStep(n) == CASE n \in {"remove_nonsvg_content", "remove_processing_instructions",
+                            "remove_anonymous_symbols"} -> "stutter"
+                  [] n = "remove_title_meta_desc" -> "discard_noise"
+                  [] n = "_remove_orphaned_gradients" -> "purge_orphans"
+                  [] n = "checkpicosvg" -> "check"
+                  [] OTHER -> n
 
 Prog(drop) ==
   <<"remove_nonsvg_content", "remove_processing_instructions", "remove_anonymous_symbols",
@@ -21,32 +33,46 @@ Prog(drop) ==
   \o <<"evenodd_to_nonzero_winding", "normalize_opacity", "absolute", "round_floats",
        "remove_empty_subpaths", "LOOP", "_remove_orphaned_gradients", "checkpicosvg">>
 
-RECURSIVE Run(_, _, _, _)
-(* i: position in the program, l: position in the log; returns "ok" or the first mismatch *)
-Run(prog, i, ev, l) ==
+SetOf(s) == {s[i] : i \in 1..Len(s)}
+
+(* the residues of obs that the model does not allow after model step ms from prev *)
+Extra(prev, ms, obs) ==
+  IF ms = "stutter" THEN obs \ (prev \cup MayCreate("discard_noise"))   \* partial discard
+  ELSE IF ms = "check" THEN (obs \ prev) \cup (prev \ obs)
+  ELSE IF ms = "dissolved_groups_and_rounded"
+  THEN obs \ ((prev \ {"needlessgroup", "unrounded"}) \cup MayCreate("dissolve_groups"))
+  ELSE obs \ ((prev \ Removes(ms)) \cup MayCreate(ms))
+Allowed(prev, ms, obs) == Extra(prev, ms, obs) = {}
+Why(prev, ev, ms, obs) == "state-after:" \o ev \o ":" \o ToString(Extra(prev, ms, obs))
+
+RECURSIVE Run(_, _, _, _, _, _)
+Run(prog, i, ev, res, l, prev) ==
   IF i > Len(prog) THEN (IF l > Len(ev) THEN "ok" ELSE "extra-event:" \o ev[l])
   ELSE IF l > Len(ev) THEN "ok:stopped-early"            \* an exception ended the conversion
-  ELSE IF prog[i] = "LOOP"
-       THEN IF ev[l] # "remove_unpainted_shapes" THEN "expected-loop-got:" \o ev[l]
-            ELSE IF l + 1 <= Len(ev) /\ ev[l + 1] = "dissolved_groups_and_rounded"
-                 THEN Run(prog, i, ev, l + 2)
-                 ELSE Run(prog, i + 1, ev, l + 1)
-  ELSE IF ev[l] = prog[i] THEN Run(prog, i + 1, ev, l + 1)
-  ELSE "expected:" \o prog[i] \o ":got:" \o ev[l]
+  ELSE LET obs == SetOf(res[l])
+           expect == IF prog[i] = "LOOP" THEN "remove_unpainted_shapes" ELSE prog[i]
+       IN IF prog[i] = "LOOP" /\ ev[l] = "dissolved_groups_and_rounded"
+          THEN (IF Allowed(prev, "dissolved_groups_and_rounded", obs) THEN Run(prog, i, ev, res, l + 1, obs)
+                ELSE Why(prev, ev[l], "dissolved_groups_and_rounded", obs))
+          ELSE IF ev[l] # expect THEN "expected:" \o expect \o ":got:" \o ev[l]
+          ELSE IF ~Allowed(prev, ModelStep(ev[l]), obs) THEN Why(prev, ev[l], ModelStep(ev[l]), obs)
+          ELSE IF prog[i] = "LOOP" /\ l + 1 <= Len(ev) /\ ev[l + 1] = "dissolved_groups_and_rounded"
+               THEN Run(prog, i, ev, res, l + 1, obs)
+          ELSE Run(prog, i + 1, ev, res, l + 1, obs)
 
-Judge(c) == LET r == Run(Prog(c.drop), 1, c.ev, 1)
-            IN IF r = "ok" THEN "ok:order" ELSE IF r = "ok:stopped-early" THEN r ELSE "drift:" \o r
+Judge(c) == LET r == Run(Prog(c.drop), 1, c.ev, c.res, 1, SetOf(c.res0))
+            IN IF r = "ok" THEN "ok:refines" ELSE IF r = "ok:stopped-early" THEN r ELSE "drift:" \o r
 
 NCases == Len(Cases)
 NBlk == 64
-Init == blk \in 1..NBlk /\ tid = 0 /\ verdict = "block"
+TInit == blk \in 1..NBlk /\ tid = 0 /\ verdict = "block" /\ pc = 0 /\ doc = {} /\ log = <<>>
 Fan == /\ verdict = "block"
        /\ \E t \in 1..NCases : t % NBlk = blk - 1 /\ tid' = t
-       /\ verdict' = "pending" /\ UNCHANGED blk
+       /\ verdict' = "pending" /\ UNCHANGED <<blk, pc, doc, log>>
 Do == /\ verdict = "pending"
       /\ verdict' = Judge(Cases[tid])
       /\ PrintT("V " \o ToString(tid) \o " " \o verdict')
-      /\ UNCHANGED <<tid, blk>>
-Next == Fan \/ Do
-Spec == Init /\ [][Next]_<<blk, tid, verdict>>
+      /\ UNCHANGED <<tid, blk, pc, doc, log>>
+TNext == Fan \/ Do
+TSpec == TInit /\ [][TNext]_<<blk, tid, verdict, pc, doc, log>>
 =============================================================================
